@@ -2,8 +2,6 @@
 
 * `C02.frame.base-set-context` (syntactic): BaseFilter.set_context still is "create the namespace, store it in
   self.context, return it" — the summary the set_context contracts use for `super().set_context(...)`.
-* `C02.frame.gmcd-defaults` (syntactic): util.getMaxComponentDepth still fills its two shared containers with `visited = set()` /
-  `rec_stack = []` under `is None` tests and rebinds them nowhere else (links the two-argument call to the contract `#walk`).
 * bounded, exhaustive small scope: util.getMaxComponentDepth on EVERY component graph over 3 glyph names (each glyph: up to
   two components drawn from the three names and one missing name): raises InvalidFontData iff a cycle is reachable from the
   start glyph; otherwise 0 < result <= true height iff the glyph has components.  (No deductive contract: "a cycle is
@@ -60,51 +58,6 @@ def scan_base_set_context():
                 if n.attr in ("absoluteError", "matrix"):
                     fails.append((f"Lib/ufo2ft/filters/base.py:{n.lineno}", f"base class sets context.{n.attr}"))
     return obs, fails
-
-
-def scan_gmcd_defaults():
-    """C02.frame.gmcd-defaults: the contract `getMaxComponentDepth#walk` is about activations that RECEIVE the two shared containers.
-    The two-argument call of the callers is that contract's instance with a fresh empty set / list and depth 0, provided the function
-    still (1) declares the defaults 0 / None / None, (2) fills the containers with exactly `visited = set()` / `rec_stack = []` under
-    `is None` tests, and (3) never rebinds them anywhere else."""
-    path = os.path.join(REPO, "Lib", "ufo2ft", "util.py")
-    tree = ast.parse(open(path, encoding="utf-8").read())
-    fn = next((n for n in tree.body if isinstance(n, ast.FunctionDef) and n.name == "getMaxComponentDepth"), None)
-    if fn is None:
-        return 3, [("Lib/ufo2ft/util.py", "getMaxComponentDepth not found")]
-    fails = []
-    where = f"Lib/ufo2ft/util.py:{fn.lineno}"
-    names = [a.arg for a in fn.args.args]
-    dflt = dict(zip(names[len(names) - len(fn.args.defaults):], [ast.unparse(d) for d in fn.args.defaults]))
-    if names != ["glyph", "glyphSet", "maxComponentDepth", "visited", "rec_stack"] or dflt != {"maxComponentDepth": "0", "visited": "None", "rec_stack": "None"}:
-        fails.append((where, f"signature/defaults changed: {names} {dflt}"))
-    fills = {"visited": "set()", "rec_stack": "[]"}
-    seen = set()
-    for st in fn.body:
-        if isinstance(st, ast.If) and not st.orelse and len(st.body) == 1 and isinstance(st.body[0], ast.Assign):
-            t = ast.unparse(st.test)
-            a = st.body[0]
-            tgt = ast.unparse(a.targets[0])
-            if tgt in fills and t == f"{tgt} is None" and ast.unparse(a.value) == fills[tgt]:
-                seen.add(tgt)
-    if seen != set(fills):
-        fails.append((where, f"default filling `if x is None: x = <empty>` missing for {sorted(set(fills) - seen)}"))
-    rebinds = []
-    for n in ast.walk(fn):
-        tg = []
-        if isinstance(n, ast.Assign):
-            tg = n.targets
-        elif isinstance(n, (ast.AugAssign, ast.AnnAssign)):
-            tg = [n.target]
-        elif isinstance(n, (ast.For, ast.comprehension)):
-            tg = [n.target]
-        for t in tg:
-            for x in ast.walk(t):
-                if isinstance(x, ast.Name) and x.id in fills:
-                    rebinds.append((x.id, n.lineno if hasattr(n, "lineno") else fn.lineno))
-    if len(rebinds) != 2:
-        fails.append((where, f"`visited` / `rec_stack` are rebound at lines {rebinds} (expected: only the two default fillings)"))
-    return 3, fails
 
 
 # ---- getMaxComponentDepth: exhaustive small scope ------------------------------------------------------------------------
@@ -409,7 +362,7 @@ def gen_case(rng, k):
 @hook("C02")
 def c02_bounded(tier, seed):
     res = {"obligations": 0, "discharged": 0, "violations": [], "checker_errors": [], "evaluations": 0, "distinct": 0, "bounded": [], "trusted": [], "assumptions": []}
-    for oname, scan in (("base-set-context", scan_base_set_context), ("gmcd-defaults", scan_gmcd_defaults)):
+    for oname, scan in (("base-set-context", scan_base_set_context),):
         try:
             obs, fails = scan()
             res["obligations"] += obs
